@@ -76,6 +76,11 @@ pub fn driver_a() -> Driver {
         "use m_nested",
         "use m_nested2",
         "use ma\nuse nonexistent",
+        // an import followed by every kind of name-resolution failure
+        "use ma\nlet meter = 2",
+        "use mb\nlet ans = 1",
+        "use mc\nfn meter(x) = x",
+        "use ma\nunit a",
         "dimension E\nunit v: E\nlet w8 = 1/0",
         "struct T { y: Scalar }\nlet w9 = 1/0",
         "fn g(x) = x\nlet w10 = 1/0",
@@ -118,6 +123,9 @@ pub fn driver_b() -> Driver {
         "use extra::algebra\nlet w5 = 1/0",
         "use numerics::solve\nlet w5b = 1 m + 1 s",
         "use units::hartree\nuse nonexistent::module",
+        "use extra::algebra\nlet meter = 2",
+        "use numerics::solve\nlet _ = 1",
+        "use units::hartree\nfn meter(x) = x",
         "use extra::color\nassert(1 == 2)",
         "dimension E\nunit v: E\nlet w8 = 1/0",
         "let a = 1/0",
